@@ -11,7 +11,7 @@ E2_LEMMAS = []      # filled in run(): lemmas_stage2.p3_escape_lemmas (S6: wrapp
 
 def run(ctx):
     from .. import lemmas_stage2
-    E2_LEMMAS[:] = lemmas_stage2.p3_escape_lemmas(ctx.tier)
+    E2_LEMMAS[:] = lemmas_stage2.p3_escape_lemmas(ctx.tier) + lemmas_stage2.s6_lemmas(ctx.tier)
     jobs = LS.string_jobs(ctx, ctx.tier)
     jobs += [(a, (fam,)) for a in ("A1", "A2") for fam in LM.FAMILIES]
     only = getattr(ctx, "only", None)
